@@ -30,6 +30,8 @@ FALLBACK = dict(timeout_ms=5000, cvc5_timeout_s=5)
 def svd_model(I, a, **kw):
     """numpy.linalg.svd of a real 3x3 matrix (assumed): a = v diag(s) w, v and w orthogonal, s0 >= s1 >= s2 >= 0."""
     a = a if isinstance(a, NDArr) else NDArr(obj_array(a), "f")
+    if kw.get("full_matrices", True) is True and kw.get("compute_uv", True) is True and kw.get("hermitian", False) is False:
+        kw = {k_: v_ for k_, v_ in kw.items() if k_ not in ("full_matrices", "compute_uv", "hermitian")}       # numpy's defaults spelled out
     if a.shape != (3, 3) or kw:
         from pyvc.values import Unsupported
         raise Unsupported("svd model: only full SVD of a 3x3 matrix")
@@ -294,7 +296,25 @@ def build(ctx):
                 ctx.prove(lab + "det/sign" + csfx, [d1 * d1 == 1, d2 * d2 == 1] + case_hyp, sg * d1 * d2 == 1,
                           clause=f"{sg} * det(v) * det(w) == +1 in this case, given det(v)^2 == det(w)^2 == 1 (obligations det/v_squared, det/w_squared)", replay=replay_for("det", "mirror"), fn=f_kab)
             if generic_needed:
-                for nm, dd, key, M in (("v", dets[0], "VtV", V), ("w", dets[1], "WWt", W)):
+                # which SVD factor each determinant was taken of is read off BY MEANING (the recorded fact d == det3(M) is compared with det3(V) and det3(W)), not from
+                # the order in which the code happens to call det: det(w) * det(v) is the same test as det(v) * det(w)
+                def taken_of(dd):
+                    h0 = S.fact_poly(dd["fact"])
+                    for nm_, key_, M_ in (("v", "VtV", V), ("w", "WWt", W)):
+                        try:
+                            if (h0 - (S.P(dd["d"]) - S.pdet3(S.pmat(M_.tolist())))).is_zero():
+                                return nm_, key_, M_
+                        except Exception:  # noqa
+                            pass
+                    return None
+                matched = []
+                for dd in dets[:2]:
+                    m_ = taken_of(dd)
+                    if m_ is None:
+                        ctx.undecided(lab + "det/factors_recognised" + psfx, "a determinant the code tests is not the determinant of one of the two SVD factors as returned by svd")
+                    else:
+                        matched.append((m_[0], dd, m_[1], m_[2]))
+                for nm, dd, key, M in matched:
                     def dc(dd=dd, key=key, M=M):
                         E = S.sym_hyp_matrix(facts[key])
                         h0 = S.fact_poly(dd["fact"])                      # d - det3(matrix the code took the determinant of)
